@@ -56,6 +56,9 @@ type Contract struct {
 	// AbstractCalls: callees (pkg-qualified keys as in allowed-calls) that this proof treats
 	// as uninterpreted deterministic functions of their value arguments
 	AbstractCalls []string
+	// PureParams: function-typed parameters whose calls are assumed effect-free
+	// (arbitrary result, no heap effect): callbacks such as recordAt(i)
+	PureParams []string
 }
 
 // AllowedCalls: the complete list of callees the function body may call.
@@ -118,7 +121,7 @@ type Axiom struct {
 var clauseKeywords = map[string]bool{
 	"func": true, "requires": true, "ensures": true, "assigns": true, "loop": true,
 	"safety": true, "mode": true, "strings": true, "trusted": true, "pure": true, "inline": true,
-	"spec": true, "lemma": true, "axiom": true, "at-call": true, "unroll": true, "atomic": true, "inventory": true, "allowed-calls": true, "abstract-calls": true,
+	"spec": true, "lemma": true, "axiom": true, "at-call": true, "unroll": true, "atomic": true, "inventory": true, "allowed-calls": true, "abstract-calls": true, "pure-params": true, "package": true,
 }
 
 var tagRe = regexp.MustCompile(`^\[(C[0-9]+\.[A-Za-z0-9_.-]+)\]\s*`)
@@ -197,6 +200,12 @@ func (cs *ContractSet) loadContractFile(path, pkgPath string) error {
 				return fmt.Errorf("%s:%d: duplicate contract for %s", path, st.line, full)
 			}
 			cs.Funcs[full] = cur
+		case "package":
+			// package <import path>: the following contracts are about functions of that
+			// (standard-library or third-party) package; they can only be trusted contracts
+			// or port contracts, since their bodies are not in /repo
+			pkgPath = strings.TrimSpace(rest)
+			cur = nil
 		case "axiom":
 			// axiom name: expr
 			ci := strings.Index(rest, ":")
@@ -354,6 +363,10 @@ func (cs *ContractSet) loadContractFile(path, pkgPath string) error {
 					cur.Atomics = map[string]*AtomicSpec{}
 				}
 				cur.Atomics[field] = &AtomicSpec{Field: field, Rely: rc, Guarantee: gc}
+			case "pure-params":
+				for _, w := range splitTop(rest, ',') {
+					cur.PureParams = append(cur.PureParams, strings.TrimSpace(w))
+				}
 			case "abstract-calls":
 				for _, w := range splitTop(rest, ',') {
 					cur.AbstractCalls = append(cur.AbstractCalls, strings.TrimSpace(w))
